@@ -149,7 +149,7 @@ type ProgOpts struct {
 
 // DefaultWeights is the C01-style mix.
 func DefaultWeights() map[string]int {
-	return map[string]int{"put": 10, "del": 4, "tx": 4, "batch": 2, "flush": 3, "compact": 1, "crange": 1, "reopen": 2}
+	return map[string]int{"put": 10, "del": 4, "tx": 4, "batch": 2, "flush": 3, "compact": 1, "crange": 1, "reopen": 2, "retire": 1}
 }
 
 // Program draws a complete program.
